@@ -182,6 +182,8 @@ def end_to_end(chk, rng, nproj):
 def run(chk):
     chk.build(["theories/Corr/C10.vo", "theories/Props/C10.vo"])
     chk.props("theories/Props/C10.v", THEOREMS)
+    if chk.tier == "thorough":
+        chk.coqchk(["Ford.Props.C10"])
     rng = chk.rng
     n = 400 if chk.tier == "quick" else 6000
     cases = []
